@@ -326,7 +326,8 @@ def run_library(spec, acc, api):
     for v, d in ((983895159459682, 2), (95, 20), (5, 17), (123456789012345, 1), (999999999999999, 3)):
         one_case('mathRound', [v, d], acc, api)
         one_case('numberToFixed', [v, d], acc, api)
-    for pair in ([1000, 1000], [123456789, 123456789], [257, 257], [-6, -6], [10 ** 14, 10 ** 14], [[1000], [1000]], [1000, 1001]):
+    for pair in ([1000, 1000], [123456789, 123456789], [257, 257], [-6, -6], [10 ** 14, 10 ** 14], [[1000], [1000]], [1000, 1001],
+                 [1700000000000, 1700000000001], [10 ** 15, 10 ** 15 + 1], [2 ** 52, 2 ** 52 + 1], [-1700000000001, -1700000000000], [[1700000000000], [1700000000001]]):
         one_case('systemIs', list(pair), acc, api)
         one_case('systemCompare', list(pair), acc, api)
     for arr in ([3, 1, 2], [10, 9, 8, 7, 1], [2, 2, 1, 3, 0, -1], [5, 4]):
@@ -337,7 +338,7 @@ def run_library(spec, acc, api):
                        ('arraySlice', [[1, 2, 3, 4], 1, 3]), ('stringSlice', ['abcdef', 2, 4]), ('stringCharCodeAt', ['abc', 1]), ('jsonStringify', [{'a': [1]}, 2]),
                        ('arrayGet', [[5, 6, 7], 2]), ('arrayDelete', [[5, 6, 7], 0]), ('arrayIndexOf', [[1, 2, 1], 1, 1]), ('arrayLastIndexOf', [[1, 2, 1], 1, 1]),
                        ('stringIndexOf', ['abcabc', 'c', 3]), ('arrayIndexOf', [[True, 1, 0], 1]), ('arrayIndexOf', [[False, 0, 1], 0]), ('arrayLastIndexOf', [[1, True], 1]), ('arrayLastIndexOf', [[0, False], 0]),
-                       ('arrayIndexOf', [[[True], [1]], [1]]), ('mathMax', [True, 1, 0]), ('mathMin', [False, 0, 1]), ('arraySort', [[1, True, 0, False, 1]]), ('systemCompare', [1, True]), ('jsonStringify', [['5" pipe', 1, 'x']]), ('jsonStringify', [{'k"': 2, 'z': ['\\', 3]}]), ('stringNew', [['a"', 7, 'b']]), ('arrayJoin', [[['q"', 1, 'r']], ',']), ('stringLastIndexOf', ['abcabc', 'c', 3]), ('stringFromCharCode', [72, 105]), ('mathLog', [8, 2])]:
+                       ('arrayIndexOf', [[[True], [1]], [1]]), ('mathMax', [True, 1, 0]), ('mathMin', [False, 0, 1]), ('arraySort', [[1, True, 0, False, 1]]), ('systemCompare', [1, True]), ('jsonStringify', [['5" pipe', 1, 'x']]), ('jsonStringify', [{'k"': 2, 'z': ['\\', 3]}]), ('stringNew', [['a"', 7, 'b']]), ('arrayJoin', [[['q"', 1, 'r']], ',']), ('stringLastIndexOf', ['abcabc', 'c', 3]), ('stringFromCharCode', [72, 105]), ('stringFromCharCode', [55357, 56832]), ('stringFromCharCode', [56832, 55357, 65]), ('stringFromCharCode', [55357]), ('arrayIndexOf', [[1700000000000, 1700000000001], 1700000000001]), ('arrayLastIndexOf', [[1700000000001, 1700000000000], 1700000000001]), ('arraySort', [[1700000000001, 1700000000000, 1700000000002]]), ('mathMax', [1700000000000, 1700000000001]), ('mathMin', [1700000000001, 1700000000000]), ('mathLog', [8, 2])]:
         one_case(name, args, acc, api)
     acc.sample({'fn': 'arraySet', 'args': [[1, 2, 3], 1, 9], 'spellings': ['index as int 1', 'index as float 1.0']}, limit=1)
 
